@@ -356,7 +356,8 @@ def nontriv(c, a):
     return a.startswith("OK") or len(c) > 40
 
 
-RULE = ("REQ/RESP cases: corpus witnesses with all their prefixes; 256-value (thorough) / nasty-value (quick) substitution sweeps at every "
+RULE = ("[+ guided generation: the committed libFuzzer corpora req/resp (coverage + behaviour features) and the inputs a 6 s run on the current tree keeps, through the same diff and oracles] " +
+        "REQ/RESP cases: corpus witnesses with all their prefixes; 256-value (thorough) / nasty-value (quick) substitution sweeps at every "
         "position of request lines padded so the byte falls in each SWAR lane and in the scalar tail; grammar-built heads (4 target forms, "
         "0-30 fields, framing fields) with trailing bytes, their 1-2 edit mutations and truncations; random strings. distinct_nontrivial = "
         "distinct case lines whose verdict is OK or whose input is longer than 16 bytes.")
@@ -439,9 +440,11 @@ register("C02", replay_with_oracle=True, lean=["Khttp.Props.C02", "Khttp.Props.C
          assumptions=COMMON_ASSUME + ["absolute-form restricted to scheme://authority path-abempty [?query]; pct-encoding checked as '%' anywhere"],
          explanation="Theorem C02_accepts_exactly: for every RfcHead satisfying the RFC grammar predicate Wf and any tail, the model accepts render(h)++tail and reports exactly "
                      "method, target, path/query split, version, all field lines via the collection, off = |render h|. Oracle: generator-side expected decoding vs real code.")
-register("C03", replay_with_oracle=True, lean=["Khttp.Props.C03", "Khttp.Props.C03Loop"], run=run_parse("C03", None), rule=RULE + " Plus full prefix chains (every prefix length 0..n) of corpus, well-formed and mutated heads.",
+register("C03", replay_with_oracle=True, lean=["Khttp.Props.C03", "Khttp.Props.C03Loop", "Khttp.Props.ClientExchange"], run=run_parse("C03", None), rule=RULE + " Plus full prefix chains (every prefix length 0..n) of corpus, well-formed and mutated heads.",
          assumptions=COMMON_ASSUME + ["TCP itself is outside the model; server/client read loops are covered by the CONN domain (C07/C10 checks) and Props/C03 loop theorems"],
-         explanation="Theorems: accept-stability, reject-stability and 'proper prefix of an accepted head is incomplete' for both parsers. Plus C03Loop: the server's read_request loop and the client's read_response loop give the same head, body start and remaining bytes (or the same error) for every segmentation of the same stream. "
+         explanation="Theorems: accept-stability, reject-stability and 'proper prefix of an accepted head is incomplete' for both parsers. Plus C03Loop: the server's read_request loop and the client's read_response loop give the same head, body start and remaining bytes (or the same error) for every segmentation of the same stream; "
+                     "ClientExchange.client_reads_back: a response rendered by the printer whose head fits the client's head buffer is read back by read_response under ANY segmentation as exactly that status, reason and header collection, "
+                     "and the body reader is handed exactly the encoded body (composition of the loop theorem with the printer -> parser round trip). "
                      "Oracle: verdict monotonicity over every prefix chain on the real code; Client::exchange against a scripted origin server under many segmentations of the same response stream (cuts at every position around the blank line).")
 register("C04", replay_with_oracle=True, lean=["Khttp.Props.C04"], run=run_parse("C04", oracle_c04), rule=RULE, assumptions=COMMON_ASSUME,
          explanation="Theorems: C04_accepted_is_rendered (consumed bytes = render of a WfStrict head; reported parts are that head's parts, all lines handed to the collection in order) and "
